@@ -657,4 +657,5 @@ RULES = [
 	('09.j', 'held state accumulates across pauses; renumbering uses the first blocked id; an InProgress initial persist is tracked', r09j),
 	('09.p', 'same-name field transfer: structs carrying this property\'s quantities are filled from the same-named field or a reviewed alias (rules/provenance.py)', lambda F: provenance.for_property(F, 'C09', '09.p')),
 	('09.n', 'post-close update ids continue from the last id the channel generated', r09n),
+	('09.y', 'no reviewed function gained a swallowed error (the Result of a fallible in-crate call dropped; rules/provenance.py)', lambda F: provenance.dr_for_property(F, 'C09', '09.y')),
 ]
